@@ -780,7 +780,61 @@ pub async fn large_exchange() {
         }
         sum.sample(json!({"size": n, "entries_on_sender": ma.len(), "entries_on_receiver": mb.len()}));
     }
+    // the same exchange with one fault in it: the receiving node's storage refuses the first repair write, or the sending
+    // node's storage refuses the read behind the first fetch.  The exchange must not count as done: the node's poller
+    // (same keyspace tracker, further rounds) repairs later.  Each case on a rig of its own, all at once.
+    let cases: Vec<(&str, u64)> = vec![("write", 1), ("write", 2), ("write", 7), ("read", 1), ("read", 2), ("read", 7)];
+    let results = futures::future::join_all(cases.iter().map(|(kind, n)| faulty_exchange(kind, *n))).await;
+    let mut consumed = 0u64;
+    for ((kind, n), r) in cases.iter().zip(results) {
+        sum.evaluations += 1;
+        match r {
+            Ok(true) => consumed += 1,
+            Ok(false) => {},
+            Err(why) => sum.violation(json!({"property": "C05", "size": n, "fault": kind, "why": [why]})),
+        }
+    }
+    sum.set("faulty_exchanges", cases.len() as u64);
+    sum.set("faults_run_into", consumed);
     sum.set("sizes", json!(sizes));
     sum.set("entries", docs_total);
     sum.write(&out_path);
+}
+
+/// One exchange of `n` documents (and a tombstone) with a fault of `kind` in it, then up to four more poller rounds with the
+/// same keyspace tracker.  Ok(whether the fault was run into), Err(why the nodes are still apart).
+async fn faulty_exchange(kind: &str, n: u64) -> Result<bool, String> {
+    let rig = Rig::new(&[1, 2]).await;
+    let (a, b) = (&rig.nodes[&1], &rig.nodes[&2]);
+    let ks = format!("faulty-{kind}-{n}");
+    let t_put = HLCTimestamp::new(Duration::from_secs(300_000), 0, 1);
+    let t_del = HLCTimestamp::new(Duration::from_secs(300_010), 0, 1);
+    let actor_a = a.grp().get_or_create_keyspace(&ks).await;
+    let all: Vec<(u64, HLCTimestamp)> = (1..=n).map(|i| (i, t_put)).collect();
+    let _ = actor_a.send(MultiSet { source: 0, docs: docs_of(&all), ctx: None, _marker: PhantomData::<St> }).await;
+    let _ = actor_a.send(Del { source: 0, doc: DocumentMetadata::new(1_000, t_del), _marker: PhantomData::<St> }).await;
+    if kind == "write" {
+        b.store.set_plan(Plan::Fail(vec![]));
+    } else {
+        *a.store.fail_read.lock() = Some("fetch");
+    }
+    let mut members = BTreeMap::new();
+    members.insert(a.id, a.addr);
+    let mut tracker = repair::Tracker::default();
+    for _ in 0..5 {
+        repair::repair_round_tracked(&b.grp(), &b.network, &members, &mut tracker).await;
+    }
+    let consumed = if kind == "write" { !matches!(*b.store.plan.lock(), Plan::Fail(_)) } else { a.store.fail_read.lock().is_none() };
+    b.store.set_plan(Plan::Ok);
+    *a.store.fail_read.lock() = None;
+    let mut ma: Vec<(u64, HLCTimestamp, bool)> = a.store.iter_metadata(&ks).await.unwrap().collect();
+    let mut mb: Vec<(u64, HLCTimestamp, bool)> = b.store.iter_metadata(&ks).await.unwrap().collect();
+    ma.sort();
+    mb.sort();
+    if ma != mb {
+        return Err(format!("after an exchange in which {} and four more rounds of the same poller, the receiving node lists {} entries, the sending node {}",
+                           if kind == "write" { "the receiver's storage refused one repair write" } else { "the sender's storage refused one read behind a fetch" },
+                           mb.len(), ma.len()));
+    }
+    Ok(consumed)
 }
